@@ -1,0 +1,9 @@
+//go:build verif
+
+package streams
+
+// VerifObserveQuotas exposes the metrics read path of the quota resources to
+// the simulation harness (the no-op otel meter never invokes the callbacks).
+func (s *Stream) VerifObserveQuotas() map[string]int64 {
+	return s.resources.VerifObserveQuotas()
+}
